@@ -1099,6 +1099,129 @@ def r15_10(ctx, prog, crate):
     ctx.anchor("R15.10", "per-kind counter builders", n, 4)
 
 
+def optional_value_flags(ctx, rule, prog, crate):
+    """An option that may be given without a value (clap `num_args` range starting at 0, no default_missing_value) means
+    `true` when given bare. clap records it as present with zero values, so the reader must ask for the occurrence
+    (get_many / contains_id ...) - `get_one` answers None for the bare flag and the option is silently dropped. Decided on the
+    path summaries of the reader in config_with_args: present without a value -> the field becomes Some(true); present
+    with a value v -> Some(v); absent -> the field is not written."""
+    from lib.patheval import PathEval
+    cmd = prog.body("cli::command", crate)
+    cfgb = prog.body("divan::Divan::config_with_args", crate)
+    if not ctx.anchor(rule, "cli::command + config_with_args", (1 if cmd else 0) + (1 if cfgb else 0), 2):
+        return
+    ctx.saw(cmd)
+    ctx.saw(cfgb)
+    zero_ok = {}
+    dmv = set()
+    for c in cmd.live_calls():
+        n = c.callee.rsplit("::", 1)[-1]
+        if c.callee.startswith("clap::") and n in ("num_args", "default_missing_value", "default_missing_values", "default_missing_value_os"):
+            ids = defined_candidates(cmd, c)
+            if n != "num_args":
+                dmv |= ids
+                continue
+            lo = None
+            for x in cmd.prov.op_src(c.args[1]):
+                if x.kind == "call" and x.a.rsplit("::", 1)[-1] == "new" and "Range" in x.a:
+                    rc = cmd.call_at(x.b)
+                    a0 = rc.args[0]
+                    if a0["k"] == "const":
+                        lo = a0["c"]["d"].split("_")[0]
+                elif x.kind == "const" and lo is None and x.a.split("_")[0].isdigit():
+                    lo = x.a.split("_")[0]
+            for i in ids:
+                zero_ok[i] = (lo, c)
+    flags = sorted(i for i, (lo, c) in zero_ok.items() if lo == "0" and i not in dmv)
+    ctx.anchor(rule, "options that may be given without a value", flags, 1)
+    for i in flags:
+        reads = [c for c in cfgb.live_calls() if c.callee.startswith("clap::ArgMatches::") and len(c.args) > 1 and
+                 '"%s"' % i in {str(x.a) for x in cfgb.prov.op_src(c.args[1]) if x.kind == "const"}]
+        if not ctx.check(len(reads) == 1, rule, [i, "read-once"], "config_with_args reads `%s` %d times" % (i, len(reads)), cfgb.where(0)):
+            continue
+        c = reads[0]
+        n = c.callee.rsplit("::", 1)[-1]
+        if not ctx.check(n in ("get_many", "try_get_many", "get_occurrences", "remove_many", "get_raw", "contains_id", "value_source", "get_count"), rule,
+                         [i, "occurrence-is-read"], "`--%s` may be given without a value, but config_with_args reads it with %s(), which answers "
+                         "None for the bare flag: the option is silently ignored" % (i, n), c.line()):
+            continue
+        others = {x.bb for x in cfgb.live_calls() if x.callee.startswith("clap::ArgMatches::") and x.bb != c.bb}
+        sums = PathEval(cfgb, max_paths=500).run(start=c.bb, stop_at=others)
+        if not ctx.check(bool(sums), rule, [i, "reader-summarisable"], "cannot summarise the reader of `%s`" % i, c.line()):
+            continue
+        field = i.replace("-", "_")
+        rows = set()
+        for sm in sums:
+            present = None
+            nxt = None
+            val = None
+            for a, pol in sm.conds:
+                if a[0] == "discr" and a[1][0] == "site" and a[1][2] == c.bb:
+                    present = (a[2] == 1) if pol else None
+                    if isinstance(a[2], str) and a[2].startswith("other:"):
+                        present = "1" not in a[2][6:].split(",")
+                elif a[0] == "discr" and a[1][0] == "site" and a[1][1].endswith("::next"):
+                    nxt = {0: "none", 1: "some"}.get(a[2], "unreachable")
+                elif a[0] == "bool" and a[1][0] == "payload" and a[1][3][0] == "site" and a[1][3][1].endswith("::next"):
+                    val = bool(pol)
+            w = sm.env.get(1)
+            stored = None
+            while w is not None and w[0] == "upd":
+                if tuple(w[2])[-1] == field:
+                    stored = w[3]
+                    break
+                w = w[1]
+            if nxt == "unreachable":
+                continue
+            if stored is None:
+                got = "unwritten"
+            elif stored[0] == "adt" and stored[2] == "Some" and stored[3] and stored[3][0][0] == "int":
+                got = "Some(%s)" % ("true" if stored[3][0][1] else "false")
+            else:
+                got = "other"
+            rows.add((present, nxt, val, got))
+        want = {(True, "none", None, "Some(true)"), (True, "some", True, "Some(true)"), (True, "some", False, "Some(false)"), (False, None, None, "unwritten")}
+        ctx.check(rows == want, rule, [i, "bare-flag-means-true"],
+                  "reader of `--%s`: (present, values, value) -> field rows %s, expected %s" % (i, sorted(map(str, rows - want)), sorted(map(str, want - rows))),
+                  c.line(), detail={"rows": sorted(map(str, rows))})
+
+
+def r15_12(ctx, prog, crate):
+    optional_value_flags(ctx, "R15.12", prog, crate)
+
+
+def no_cli_defaults(ctx, rule, prog, crate, only=None):
+    """A value that was not given at run time leaves what the program configured: config_with_args writes an option only when
+    clap reports a value (`if let Some(..) = matches.get_one(id)`), so the definitions in cli::command must not give clap a
+    default of their own (default_value & co.) - such a default is reported for every run and silently replaces the value set
+    through the Divan builder (and the DIVAN_* / attribute levels below it)."""
+    cmd = prog.body("cli::command", crate)
+    if not ctx.anchor(rule, "cli::command", 1 if cmd else 0, 1):
+        return
+    ctx.saw(cmd)
+    DEFAULTS = ("default_value", "default_values", "default_value_os", "default_values_os", "default_value_if", "default_value_ifs",
+                "default_missing_value", "default_missing_values", "default_missing_value_os", "default_missing_values_os")
+    n = 0
+    for c in cmd.live_calls():
+        if not c.callee.startswith("clap::"):
+            continue
+        m = c.callee.rsplit("::", 1)[-1]
+        if c.callee.startswith("clap::Arg::") or c.callee.startswith("clap::builder::Arg::"):
+            n += 1
+        if m in DEFAULTS:
+            ids = sorted(defined_candidates(cmd, c)) or ["?"]
+            for i in ids:
+                if only is None or i in only:
+                    ctx.fail(rule, ["cli-default", i, m], "the command line gives `--%s` a default of its own (clap `%s`): clap then reports a value on every "
+                             "run and config_with_args overwrites what was configured through the Divan builder" % (i, m), c.line())
+    ctx.anchor(rule, "clap::Arg builder calls examined", n, 40)
+    ctx.ok(rule, "no-cli-defaults")
+
+
+def r15_13(ctx, prog, crate):
+    no_cli_defaults(ctx, "R15.13", prog, crate)
+
+
 def r15_11(ctx, prog, crate):
     """(= R14.3) `ignore` resolves for the terse listing exactly as for a run: run_tree_list threads the inherited options
     through its recursion, merges each node's own options over them with overwrite() and lets the runner's value win at the
@@ -1109,6 +1232,8 @@ def r15_11(ctx, prog, crate):
 
 
 def run(ctx, prog, crate):
+    r15_13(ctx, prog, crate)
+    r15_12(ctx, prog, crate)
     r15_11(ctx, prog, crate)
     r15_10(ctx, prog, crate)
     r15_8(ctx, prog, crate)
